@@ -405,6 +405,11 @@ where
     /// Single-column runtime-borrowed accesses for the C11 matrix.
     fn acc_find_borrow(&self, ai: usize, col: usize, mutable: bool, key: Key, k: &mut dyn FnMut(Obs)) -> bool;
     fn acc_iter_borrow(&self, ai: usize, col: usize, mutable: bool, k: &mut dyn FnMut(Bits, Obs) -> bool);
+    /// One borrow-mode query naming the same column twice (`|a: &C, b: &mut C|`): must panic
+    /// whenever it actually reaches an entity. Returns None when the world has no such site.
+    fn acc_double_use(&self, _iter: bool, _key: Option<Key>, _k: &mut dyn FnMut()) -> Option<(usize, usize)> {
+        None
+    }
     #[cfg(feature = "events")]
     fn w_created(&self) -> Result<Vec<Bits>, String>;
     #[cfg(feature = "events")]
